@@ -5,7 +5,10 @@
 //
 // Case lines:
 //   1 mode start end [rs re]     mode 0: capture/apply probe; mode 1: dense record run [start,end) then replay run [rs,re)
-//                                mode 2: the same through the sparse absolute-time :memory: recording (explicit recordable_id)
+//                                mode 2: the same through the sparse absolute-time :memory: recording (explicit recordable_id),
+//                                        plus the RECOVER seed (recorded_seed_resolver) as of every cycle of the run
+//   1 3 start end rs re split    mode 3: sparse recording CONTINUED over two runs [start,split) and [split,end) sharing the
+//                                        GlobalState entry, then the replay run
 //   2 <schema tokens>            1=TS<int> 2=SIGNAL 3=TSS<int> 4 <e>=TSD<int,e> 5 n <e>=TSL<e,n>
 //                                6 k <f1..fk>=TSB 7 period min=TSW<int,period,min>
 //   3 t np p1..pn op arg         one mutation at time t through the path (TSD: key, TSL/TSB: index)
@@ -368,6 +371,11 @@ namespace
         std::unique_ptr<TSInput>  copy_in;
         bool                      copy_bound{false};
         std::int64_t              tag{0};   // added to observation codes (0 first run, 100 replay run)
+        // the source's value() after each of its ticks (for the recover comparison)
+        std::map<std::int64_t, std::pair<bool, Value>> values;
+        // one delta-typed slot that every captured delta is ASSIGNED into in place before it is
+        // applied (what a reused buffer slot / a feedback does)
+        std::optional<Value> slot;
     };
 
     NodeBuilder make_source(Ctx *ctx)
@@ -432,6 +440,7 @@ namespace
                 Line       dl{observable};
                 enc_delta(dl, delta.view(), ctx->shape);
                 emit(ctx, 21, now, dl);
+                ctx->values[us(now)] = in.valid() ? std::make_pair(true, Value{in.value()}) : std::make_pair(false, Value{});
                 if (!round_trip) { return; }
                 if (!ctx->copy)
                 {
@@ -440,7 +449,18 @@ namespace
                         *ctx->shape.meta, TSEndpointSchema::peered(ctx->shape.meta)));
                     ctx->copy_in->view(nullptr, now).bind_output(ctx->copy->view(now));
                 }
-                apply_delta(ctx->copy->view(now), delta.view());
+                // the delta travels through a reused slot: in-place assignment over the previous delta
+                if (!ctx->slot.has_value() || !ctx->slot->has_value() || ctx->slot->binding() != delta.binding())
+                {
+                    ctx->slot.emplace(delta.view());
+                }
+                else
+                {
+                    const auto binding = delta.binding();
+                    binding.ops_ref().copy_assign_from(binding, const_cast<void *>(ctx->slot->view().data()), binding,
+                                                      delta.view().data());
+                }
+                apply_delta(ctx->copy->view(now), ctx->slot->view());
                 auto cin = ctx->copy_in->view(nullptr, now);
                 Line cs;
                 enc_state(cs, cin, ctx->shape);
@@ -498,7 +518,7 @@ namespace
     {
         Ctx ctx;
         ctx.out = &out;
-        std::int64_t mode = 0, start = 1, end = 10, rstart = 1, rend = 10;
+        std::int64_t mode = 0, start = 1, end = 10, rstart = 1, rend = 10, split = 0;
         bool         have_shape = false;
         try
         {
@@ -508,6 +528,7 @@ namespace
                 {
                     mode = l[1]; start = l[2]; end = l[3]; rstart = 1; rend = end;
                     if (l.size() >= 6) { rstart = l[4]; rend = l[5]; }
+                    if (l.size() >= 7) { split = l[6]; }
                 }
                 else if (l[0] == 2)
                 {
@@ -531,7 +552,8 @@ namespace
                 else { throw BadCase("line"); }
             }
             if (!have_shape || start < 1 || end <= start || end > start + 1000) { throw BadCase("header"); }
-            if (mode != 0 && !((mode == 1 || mode == 2) && rstart >= 1 && rend > rstart && rend <= rstart + 1000)) { throw BadCase("mode"); }
+            if (mode != 0 && !((mode >= 1 && mode <= 3) && rstart >= 1 && rend > rstart && rend <= rstart + 1000)) { throw BadCase("mode"); }
+            if (mode == 3 && !(start < split && split < end)) { throw BadCase("split"); }
             {
                 std::vector<std::pair<std::int64_t, std::vector<std::int64_t>>> pushes;
                 for (const auto &op : ctx.ops)
@@ -563,25 +585,32 @@ namespace
             else
             {
                 stdlib::register_standard_operators();
-                struct SrcTag {};
-                struct ProbeTag {};
-                const bool        sparse   = mode == 2;
+                const bool        sparse   = mode >= 2;
                 const std::string rec_key  = sparse ? ":memory:hgv.rec" : "rec";
                 const std::string rec2_key = sparse ? ":memory:hgv.rec2" : "rec2";
-                Value recorded;
-                {
+                Value             recorded;
+                // one recording run over [from, to) with the operations of that interval; a previous
+                // run's recording may be seeded into its GlobalState (continuation)
+                auto record_run = [&](std::int64_t from, std::int64_t to, std::int64_t list_code, bool recover) {
+                    struct SrcTag {};
+                    struct ProbeTag {};
+                    Ctx rc;
+                    rc.shape = ctx.shape;
+                    rc.out   = &out;
+                    for (const auto &op : ctx.ops) { if (op.t >= from && op.t < to) { rc.ops.push_back(op); } }
                     Wiring        w{WiringKind::TopLevel, WiringOptions{}};
-                    WiringPortRef src = w.add_unique_node(std::type_index(typeid(SrcTag)), make_source(&ctx),
+                    WiringPortRef src = w.add_unique_node(std::type_index(typeid(SrcTag)), make_source(&rc),
                                                           std::span<const WiringPortRef>{}, Value{});
                     std::array<WiringPortRef, 1> ins{src};
-                    static_cast<void>(w.add_unique_node(std::type_index(typeid(ProbeTag)), make_probe(&ctx, false),
+                    static_cast<void>(w.add_unique_node(std::type_index(typeid(ProbeTag)), make_probe(&rc, true),
                                                         std::span<const WiringPortRef>{ins.data(), ins.size()}, Value{}));
                     Port<void> sp{w, src};
                     if (sparse) { wire<stdlib::sparse_record_impl>(w, sp, Str{"rec"}, arg<"recordable_id">(Str{"hgv"})); }
                     else { wire<stdlib::dense_record_impl>(w, sp, Str{"rec"}); }
-                    GraphBuilder         gb = std::move(w).finish();
+                    GraphBuilder gb = std::move(w).finish();
+                    if (recorded.has_value()) { gb.global_state().set(rec_key, recorded); }
                     GraphExecutorBuilder eb;
-                    eb.graph_builder(std::move(gb)).start_time(dt(start)).end_time(dt(end));
+                    eb.graph_builder(std::move(gb)).start_time(dt(from)).end_time(dt(to));
                     GraphExecutorValue executor = eb.make_executor();
                     auto               ev       = executor.view();
                     ev.run();
@@ -589,13 +618,41 @@ namespace
                     if (buf.valid())
                     {
                         recorded = Value{buf};
-                        if (sparse) { print_sparse(out, 31, buf, ctx.shape); } else { print_buffer(out, 30, buf, ctx.shape); }
+                        if (sparse) { print_sparse(out, list_code, buf, ctx.shape); } else { print_buffer(out, list_code, buf, ctx.shape); }
                     }
-                }
+                    else { recorded = Value{}; }
+                    if (recover)
+                    {
+                        // RECOVER: the seed as of T is the fold of the recorded deltas up to T; it must be the
+                        // value the source had at T
+                        for (std::int64_t T = from; T <= to && T <= from + 24; ++T)
+                        {
+                            Value rec = record_replay::recorded_seed_resolver(ev.graph().global_state(), "hgv.rec",
+                                                                              ctx.shape.meta, dt(T));
+                            const std::pair<bool, Value> *ref = nullptr;
+                            for (const auto &[t, v] : rc.values) { if (t <= T) { ref = &v; } }
+                            const bool rvalid = rec.has_value();
+                            const bool fvalid = ref != nullptr && ref->first;
+                            bool       eq     = rvalid == fvalid;
+                            if (rvalid && fvalid) { eq = rec.view().equals(ref->second.view()); }
+                            out.line({33, T, rvalid, fvalid, eq});
+                        }
+                    }
+                };
+                if (mode == 3)
                 {
-                    ctx.tag = 100;
-                    Wiring                   w{WiringKind::TopLevel, WiringOptions{}};
-                    WiringArg                key;
+                    record_run(start, split, 31, false);
+                    record_run(split, end, 35, false);
+                }
+                else { record_run(start, end, sparse ? 31 : 30, mode == 2); }
+                {
+                    struct ProbeTag {};
+                    Ctx rc;
+                    rc.shape = ctx.shape;
+                    rc.out   = &out;
+                    rc.tag   = 100;
+                    Wiring    w{WiringKind::TopLevel, WiringOptions{}};
+                    WiringArg key;
                     key.kind         = WiringArg::Kind::Scalar;
                     key.scalar_value = Value{Str{"rec"}};
                     key.scalar_meta  = key.scalar_value.schema();
@@ -615,7 +672,7 @@ namespace
                     if (!res.has_output) { throw std::logic_error("replay has no output"); }
                     WiringPortRef                rp = res.output.erased();
                     std::array<WiringPortRef, 1> ins{rp};
-                    static_cast<void>(w.add_unique_node(std::type_index(typeid(ProbeTag)), make_probe(&ctx, false),
+                    static_cast<void>(w.add_unique_node(std::type_index(typeid(ProbeTag)), make_probe(&rc, false),
                                                         std::span<const WiringPortRef>{ins.data(), ins.size()}, Value{}));
                     if (sparse) { wire<stdlib::sparse_record_impl>(w, res.output, Str{"rec2"}, arg<"recordable_id">(Str{"hgv"})); }
                     else { wire<stdlib::dense_record_impl>(w, res.output, Str{"rec2"}); }
